@@ -15,6 +15,13 @@ R05.6 "shorter than 2^32 bytes": the byte-to-bit conversion feeding every length
 R05.7 block loops keep their accumulators (see C10 R10.8) in the 8 assembly block functions.
 R05.8 the assembly block functions read the input only within [0, 1024 * num_blocks): length skeleton with 1..3
       blocks (lib/lenrun.py).
+R05.9 byte conservation of the update functions on the IR skeleton (lib/irskel.py): for a grid of (bytes carried,
+      len) around every block boundary the events of the one path the pair selects are replayed: every byte of the
+      caller's buffer is consumed exactly once and in order (copied behind the carried bytes, or handed to the block
+      function in whole blocks), the carried block is hashed exactly when it is full, floor((carried+len)/1024)
+      blocks are hashed, (carried+len) mod 1024 bytes are carried, total_length grows by len.
+R05.10 padding layout of the tail functions on the IR skeleton: 0x80 right behind the residue, zero fill, one block
+      more exactly when the 8-byte length no longer fits, length stored into the last 8 bytes of the last block.
 R05.4 "hashed ... with standard SHA-1 / SHA-256" (padding half): every store of the message bit length into a
       padding buffer that the C source asks for (tail functions, the final single-buffer hash) survives in the
       object built with the real flags - some instruction attributed to that source line writes memory.
@@ -50,6 +57,8 @@ def run(chk):
     ncons, ncase = mhrules.update_conservation(chk, "R05.9", mods, r"^_mh_sha(1|256)_update_\w+$", r"^_?mh_sha(1|256)_block_\w+$")
     chk.floor("update functions replayed for byte conservation", ncons, 10)
     chk.floor("(carried, len) cases followed on the IR skeleton", ncase, 300)
+    ntail, ntc = mhrules.tail_rule(chk, "R05.10", mods, r"^_mh_sha(1|256)_tail_\w+$", r"^_?mh_sha(1|256)_block_\w+$")
+    chk.floor("tail functions replayed for the padding layout", ntail, 8)
     nbb = mhrules.block_bounds(chk, "R05.8", lib, mods, "_mh_sha1_block") + mhrules.block_bounds(chk, "R05.8", lib, mods, "_mh_sha256_block")
     chk.floor("block functions followed on the length skeleton", nbb, 8)
     ns = mhrules.length_store_survives(chk, "R05.4", lib, mods)
